@@ -6,6 +6,7 @@ package apo
 
 import (
 	"fmt"
+	"regexp"
 	"go/constant"
 	"go/token"
 	"go/types"
@@ -140,8 +141,18 @@ func (d *Describer) val(v ssa.Value, depth int) string {
 		if ta, ok := x.Tuple.(*ssa.TypeAssert); ok && x.Index == 0 {
 			return d.val(ta, depth)
 		}
+		if call, ok := x.Tuple.(*ssa.Call); ok {
+			if s, ok := d.inlineHelper(&call.Call, x.Index, depth); ok {
+				return s
+			}
+		}
 		return d.val(x.Tuple, depth) + fmt.Sprintf("#%d", x.Index)
 	case *ssa.Call:
+		if x.Call.Signature().Results().Len() == 1 {
+			if s, ok := d.inlineHelper(&x.Call, 0, depth); ok {
+				return s
+			}
+		}
 		return d.call(&x.Call, depth) + d.objOps(x, depth)
 	case *ssa.MakeSlice:
 		return "make(" + typeStr(x.Type()) + ", " + d.val(x.Len, depth+1) + ")"
@@ -369,3 +380,104 @@ func refLikeT(t types.Type) bool {
 
 // CallDesc renders a call instruction's common part.
 func (d *Describer) CallDesc(c *ssa.CallCommon) string { return d.call(c, 0) }
+
+// ---- helper inlining --------------------------------------------------------
+//
+// A call of a small unexported in-module helper is described by what the
+// helper returns (its parameters replaced by the call's arguments), so that
+// extracting a few lines into a helper, or inlining one, does not change the
+// canonical descriptors.
+
+var inlineBusy = map[*ssa.Function]bool{}
+
+// Inlinable reports whether f is a small unexported function of the module.
+func Inlinable(f *ssa.Function) bool {
+	if f == nil || len(f.Blocks) == 0 || len(f.Blocks) > 60 || !core.InModule(f) || f.Synthetic != "" {
+		return false
+	}
+	n := f.Name()
+	if n == "" || !(n[0] >= 'a' && n[0] <= 'z') {
+		return false
+	}
+	return !inlineBusy[f]
+}
+
+var paramTok = regexp.MustCompile(`\bP(\d+)\b`)
+
+// SubstParams replaces the parameter tokens P<i> of a callee descriptor by the
+// caller's argument descriptors.
+func SubstParams(desc string, args []string) string {
+	return paramTok.ReplaceAllStringFunc(desc, func(m string) string {
+		var i int
+		fmt.Sscanf(m, "P%d", &i)
+		if i < len(args) {
+			return args[i]
+		}
+		return m
+	})
+}
+
+func (d *Describer) inlineHelper(c *ssa.CallCommon, k int, depth int) (string, bool) {
+	if c.IsInvoke() {
+		return "", false
+	}
+	f := c.StaticCallee()
+	if !Inlinable(f) || f == d.fn {
+		return "", false
+	}
+	res := f.Signature.Results()
+	if k >= res.Len() || isErrT(res.At(k).Type()) {
+		return "", false
+	}
+	errIdx := -1
+	if n := res.Len(); n > 0 && isErrT(res.At(n-1).Type()) {
+		errIdx = n - 1
+	}
+	inlineBusy[f] = true
+	defer delete(inlineBusy, f)
+	sd := NewDescriber(f)
+	set := map[string]bool{}
+	for _, b := range f.Blocks {
+		for _, in := range b.Instrs {
+			r, ok := in.(*ssa.Return)
+			if !ok {
+				continue
+			}
+			if errIdx >= 0 && errIdx != k {
+				// skip error paths: the error result is a constructor call / sentinel / non-nil by construction
+				if ev := r.Results[errIdx]; !isNilConst(ev) {
+					if _, isCall := ev.(*ssa.Call); isCall {
+						continue
+					}
+					if _, isMk := ev.(*ssa.MakeInterface); isMk {
+						continue
+					}
+					if u, ok := ev.(*ssa.UnOp); ok {
+						if _, isG := u.X.(*ssa.Global); isG {
+							continue
+						}
+					}
+				}
+			}
+			v := r.Results[k]
+			if cst, ok := v.(*ssa.Const); ok && (cst.Value == nil) {
+				continue // zero value on a failing path
+			}
+			set[sd.val(v, depth)] = true
+		}
+	}
+	if len(set) != 1 {
+		return "", false
+	}
+	var body string
+	for s := range set {
+		body = s
+	}
+	var args []string
+	for _, a := range c.Args {
+		args = append(args, d.val(a, depth+1))
+	}
+	return SubstParams(body, args), true
+}
+
+func isErrT(t types.Type) bool { return types.Identical(t, types.Universe.Lookup("error").Type()) }
